@@ -87,7 +87,7 @@ ExtStepChecks(k, e, s, t) ==
       burnTick == k = "Begin" /\ Ticked(s, t, s.burner.epoch)
       ds == {s.burner.denoms[i] : i \in DOMAIN s.burner.denoms}
       badBurn == {d \in {x \in ds : Bal(s, "zero", x) \succ Zero} : IF burnTick
-                               THEN ~(\/ (Bal(t, "zero", d) = Zero /\ DSupply(s, t, d) = Zero -- Bal(s, "zero", d))
+                               THEN ~(\/ (Bal(t, "zero", d) = Zero /\ DSupply(s, t, d) -- ProviderRelease(k, s, t, d) = Zero -- Bal(s, "zero", d))
                                       \/ Bal(t, "zero", d) = Bal(s, "zero", d))
                                ELSE Bal(t, "zero", d) \prec Bal(s, "zero", d)}
       \* masterchef's accumulator scheme as a deterministic specification (hooks_masterchef.go; MC_rewards is its small model):
